@@ -26,7 +26,7 @@ import icontract  # noqa: E402
 from vf import docgrammar, fgen, genmodels, layout, observe  # noqa: E402
 
 PID = "C03"
-META_KEYS = ("author", "version", "date", "since", "category", "license")
+META_KEYS = ("author", "version", "date", "since", "category", "license", "summary")
 
 MON = {"admon_evals": 0, "admon_viol": []}
 
@@ -116,7 +116,12 @@ def observe_project(item):
         m = getattr(ent, "meta", None)
         for k in META_KEYS:
             v = getattr(m, k, None) if m is not None else None
-            if v:
+            if v and k == "summary":
+                # (rendered: compare the tracer; an entity without `summary:` gets its first paragraph here, which has no zm word)
+                zm = re.findall(r"zm\w+", docgrammar.html_text(str(v)))
+                if zm:
+                    meta[k] = " ".join(zm)
+            elif v:
                 meta[k] = v if isinstance(v, str) else str(v)
         out[path] = {"list": docgrammar.tracer_seq(list(ent.doc_list)), "html": docgrammar.tracer_seq(htmltext), "meta": meta,
                      "zn_in_doc": bool(re.search(r"\bzn\d", " ".join(ent.doc_list) + " " + htmltext)), "raw": list(ent.doc_list)[:40],
